@@ -29,7 +29,8 @@ extern int mpt_parse_format_enc(const MPT_STRUCT(parser_format) *fmt, MPT_STRUCT
 		/* no further data and no section end */
 		else if ((curr = mpt_parse_nextvis(&parse->src, fmt->com, sizeof(fmt->com))) < 0) {
 			parse->curr = 0;
-			return 0;
+			/* input error is no regular end */
+			return (curr == -2) ? 0 : MPT_ERROR(BadArgument);
 		}
 		/* section start == end detected */
 		else if (path->len && curr == fmt->sstart) {
